@@ -10,3 +10,4 @@ CONSTANTS
   Resizes <- ReflowResizes
   MaxDepth = 4
   Emit = TRUE
+  CheckDump = FALSE
